@@ -40,3 +40,20 @@ CANDS = {
 "generic_iter_send": "fn f<T: Send + Sync, N: ArrayLength>(a: GenericArray<T, N>) { fn need<X: Send + Sync>(_: X) {} need(a.into_iter()) }",
 "generic_copy": "fn f<T: Copy, N: ArrayLength>(a: GenericArray<T, N>) -> (GenericArray<T, N>, GenericArray<T, N>) where N::ArrayType<T>: Copy { (a, a) }",
 }
+
+# correct programs whose right-hand side is inferred from the comparison: a second, looser PartialEq impl would make them ambiguous
+CANDS.update({
+"infer_eq_default": "fn f(a: GenericArray<u32, U3>) -> bool { a == Default::default() }",
+"infer_eq_into": "fn f(a: GenericArray<u8, U3>) -> bool { a == [1u8, 2, 3].into() }",
+"infer_eq_collect": "fn f(a: GenericArray<u8, U3>) -> bool { a == (0u8..3).collect() }",
+"infer_ne_generate": "fn f(a: GenericArray<usize, U4>) -> bool { a != GenericArray::generate(|i| i) }",
+"infer_partial_cmp": "fn f(a: GenericArray<u8, U2>) -> bool { a < Default::default() && a.partial_cmp(&[1u8, 2].into()).is_some() }",
+})
+# programs that must be rejected whatever else changes: an array compared with a native array of another length
+REJECTS = {
+"native_eq_longer": "fn f(a: GenericArray<u8, U3>) -> bool { a == [1u8, 2, 3, 4] }",
+"native_eq_shorter": "fn f(a: GenericArray<u8, U3>) -> bool { [1u8, 2] == a }",
+"native_ne_longer": "fn f(a: &GenericArray<String, U2>, b: &[String; 3]) -> bool { a != b }",
+"native_lt_longer": "fn f(a: GenericArray<u8, U3>) -> bool { a < [1u8, 2, 3, 4] }",
+"slice_view_eq_other_len": "fn f(a: &GenericArray<u8, U3>, b: &GenericArray<u8, U4>) -> bool { a == b }",
+}
